@@ -57,6 +57,7 @@ type FuncContract struct {
 	MayPanic bool
 	PanicFree bool
 	Budget   int // solver seconds per obligation (0 = tier default)
+	Forget   map[string]bool
 	FrameOnly bool // only frame/initialisation obligations (no SMT obligations are generated)
 	Requires []*Clause
 	Assumes  []*Clause
@@ -108,7 +109,7 @@ type Contracts struct {
 	File    string
 }
 
-var keywordRe = regexp.MustCompile(`^(spec|axiom|lemma|func|props|tier|arith|pure|inline|trusted|nosafety|requires|ensures|expect|panics|modifies|loop|ghost|assert|replaces|initfields|frameonly|budget|panicfree|assumes|maypanic|floats)\b`)
+var keywordRe = regexp.MustCompile(`^(spec|axiom|lemma|func|props|tier|arith|pure|inline|trusted|nosafety|requires|ensures|expect|panics|modifies|loop|ghost|assert|replaces|initfields|frameonly|budget|panicfree|assumes|maypanic|floats|forget)\b`)
 var labelRe = regexp.MustCompile(`^\[([A-Za-z0-9_.\-]+)\]\s*`)
 
 func (c *Contracts) newClause(kind, text string, line int) *Clause {
@@ -239,6 +240,16 @@ func ParseContracts(path string) (*Contracts, error) {
 				cur.NoSafety = true
 			case "frameonly":
 				cur.FrameOnly = true
+			case "forget":
+				// forget v...: after every assignment the local v is replaced by an unconstrained value of its
+				// type (a sound weakening: what is proved for every value holds for the computed one); used
+				// to keep a large nonlinear definition out of obligations that only need the branch conditions
+				if cur.Forget == nil {
+					cur.Forget = map[string]bool{}
+				}
+				for _, v := range strings.Fields(rest) {
+					cur.Forget[v] = true
+				}
 			case "maypanic":
 				// the function may propagate a documented panic of a callee whose condition cannot be
 				// expressed over this function's parameters (e.g. a value set by option callbacks)
